@@ -111,15 +111,21 @@ class Subject(object):
     def apply(self, vec, op):
         """op = [name, i, j, [id,size], [[id,size],..]] -> result string"""
         name, i, j, x, xs = op
+        # the new items arrive as a list, a tuple, a one-shot iterator or a generator (a plain list takes them all alike)
+        kind = (len(xs) + abs(i) + 2 * abs(j)) % 4
+
+        def many():
+            items = [self.item(p) for p in xs]
+            return items if kind == 0 else tuple(items) if kind == 1 else iter(items) if kind == 2 else (y for y in items)
         try:
             if name == 'insert':
                 vec.insert(i, self.item(x))
             elif name == 'append':
                 vec.append(self.item(x))
             elif name == 'extend':
-                vec.extend([self.item(p) for p in xs])
+                vec.extend(many())
             elif name == 'iadd':
-                vec += [self.item(p) for p in xs]
+                vec += many()
             elif name == 'pop':
                 vec.pop(i)
             elif name == 'delitem':
@@ -131,11 +137,11 @@ class Subject(object):
             elif name == 'delslice':
                 del vec[i:j]
             elif name == 'setslice':
-                vec[i:j] = [self.item(p) for p in xs]
+                vec[i:j] = many()
             elif name == 'delxslice':
                 del vec[slice(None if i == OPEN else i, None if j == OPEN else j, x[0])]
             elif name == 'setxslice':
-                vec[slice(None if i == OPEN else i, None if j == OPEN else j, x[0])] = [self.item(p) for p in xs]
+                vec[slice(None if i == OPEN else i, None if j == OPEN else j, x[0])] = many()
             elif name == 'reverse':
                 vec.reverse()
             elif name == 'clear':
